@@ -237,14 +237,74 @@ def inventory(repo: str):
                 keys.append((fname, qual(n), ast.unparse(n.func.value), n.func.attr, key_text(n.args[0], n)))
             elif isinstance(n, ast.Compare) and len(n.ops) == 1 and isinstance(n.ops[0], (ast.In, ast.NotIn)) and is_cache(n.comparators[0]):
                 keys.append((fname, qual(n), ast.unparse(n.comparators[0]), "in", key_text(n.left, n)))
+            # memo kept as an ad-hoc attribute of an object (frozen dataclasses):
+            #   x.__dict__.get("_name")  /  object.__setattr__(x, "_name", v)   outside __init__/__post_init__
+            if isinstance(n, ast.Call) and isinstance(n.func, ast.Attribute) and n.func.attr == "get" and n.args \
+                    and isinstance(n.func.value, ast.Attribute) and n.func.value.attr == "__dict__" \
+                    and isinstance(n.args[0], ast.Constant) and isinstance(n.args[0].value, str):
+                keys.append((fname, qual(n), "attribute " + n.args[0].value, "get", "object " + ast.unparse(n.func.value.value)))
+            if isinstance(n, ast.Call) and ast.unparse(n.func) == "object.__setattr__" and len(n.args) == 3 \
+                    and isinstance(n.args[1], ast.Constant) and isinstance(n.args[1].value, str):
+                q = qual(n)
+                if not q.endswith(("__init__", "__post_init__")):
+                    keys.append((fname, q, "attribute " + n.args[1].value, "store", "object " + ast.unparse(n.args[0])))
     # the fields of the dataclass that serves as key of resolution_cache
     for fname, tree in trees:
         for node in ast.walk(tree):
             if isinstance(node, ast.ClassDef) and node.name == "_LookupContext":
                 flds = [st.target.id for st in node.body if isinstance(st, ast.AnnAssign) and isinstance(st.target, ast.Name)]
                 keys.append((fname, "_LookupContext", "<dataclass fields>", "fields", ", ".join(flds)))
+    # the key of resolution_cache is checked field by field (resolution_key_fields), not as text
+    keys = [k for k in keys if "resolution_cache" not in k[2] and k[1] != "_LookupContext"]
     keys = sorted(set(keys))
     return items, keys
+
+
+def resolution_key_fields(repo: str):
+    """What FunctionScope._resolve_value puts into the key of resolution_cache, field by field
+    (semantic, not textual: the key is `replace(<_LookupContext>, f=<expr>, ...)` or a direct
+    `_LookupContext(...)`): every field of _LookupContext is
+      "kept"        taken over from the lookup context unchanged
+      "const"       replaced by a constant (None / a literal)
+      "conditional" replaced by anything else (depends on run-time conditions)"""
+    tree = ast.parse((Path(repo) / "pyanalyze" / "stacked_scopes.py").read_text())
+    fields = None
+    fn = None
+    for node in ast.walk(tree):
+        if isinstance(node, ast.ClassDef) and node.name == "_LookupContext":
+            fields = [st.target.id for st in node.body if isinstance(st, ast.AnnAssign) and isinstance(st.target, ast.Name)]
+        if isinstance(node, ast.FunctionDef) and node.name == "_resolve_value":
+            fn = node
+    if not fields or fn is None:
+        raise TranslateError("stacked_scopes.py: _LookupContext / _resolve_value not found")
+    # the expression used as subscript of <x>.resolution_cache
+    key_exprs = []
+    for n in ast.walk(fn):
+        if isinstance(n, ast.Subscript) and isinstance(n.value, ast.Attribute) and n.value.attr == "resolution_cache":
+            key_exprs.append(n.slice)
+    if not key_exprs:
+        raise TranslateError("stacked_scopes.py: no resolution_cache subscript in _resolve_value")
+    texts = {ast.unparse(k) for k in key_exprs}
+    if len(texts) != 1:
+        raise TranslateError(f"stacked_scopes.py: resolution_cache is subscripted with different keys: {sorted(texts)}")
+    k = key_exprs[0]
+    if isinstance(k, ast.Name):
+        rhs = [a.value for a in ast.walk(fn) if isinstance(a, ast.Assign) and len(a.targets) == 1
+               and isinstance(a.targets[0], ast.Name) and a.targets[0].id == k.id]
+        if len(rhs) != 1:
+            raise TranslateError("stacked_scopes.py: the resolution_cache key variable is not assigned exactly once")
+        k = rhs[0]
+    status = {f: "kept" for f in fields}
+    if isinstance(k, ast.Call) and _name(k.func) == "replace" and len(k.args) == 1 and isinstance(k.args[0], ast.Name):
+        for kw in k.keywords:
+            if kw.arg not in status:
+                raise TranslateError(f"stacked_scopes.py: replace() sets unknown field {kw.arg}")
+            status[kw.arg] = "const" if isinstance(kw.value, ast.Constant) else "conditional"
+    elif isinstance(k, ast.Name):
+        pass  # the lookup context itself
+    else:
+        raise TranslateError(f"stacked_scopes.py: unsupported resolution_cache key {ast.unparse(k)}")
+    return [(f, status[f]) for f in fields]
 
 
 def _cq(s):
@@ -263,7 +323,9 @@ def translate(repo: str) -> str:
         "(* GENERATED by harness/translate/state.py from the seven files anchored by C10 -- do not edit *)\n"
         "From Coq Require Import String List.\nRequire Import PV.Det.StateAudit.\nImport ListNotations.\nOpen Scope string_scope.\n\n"
         "Definition state_items : list state_item := [\n" + ";\n".join(rows) + "\n]%list.\n\n"
-        "Definition cache_keys : list cache_key := [\n" + ";\n".join(krows) + "\n]%list.\n"
+        "Definition cache_keys : list cache_key := [\n" + ";\n".join(krows) + "\n]%list.\n\n"
+        "Definition resolution_key_fields : list (string * string) := ["
+        + "; ".join(f"({_cq(f)}, {_cq(st)})" for f, st in resolution_key_fields(repo)) + "]%list.\n"
     )
 
 
